@@ -1,6 +1,11 @@
 package main
 
 import (
+	"go/token"
+	"go/types"
+
+	"golang.org/x/tools/go/ssa"
+
 	"context"
 	"encoding/json"
 	"flag"
@@ -157,6 +162,64 @@ func (cr *checkRun) generate() {
 			}
 		}
 	}
+}
+
+// readsObligations: the 'reads' directive - a syntactic dependence check on the function's own body.
+func (cr *checkRun) readsObligations() {
+	for _, name := range cr.specs.Order {
+		sp := cr.specs.Funcs[name]
+		if sp == nil || len(sp.Reads) == 0 || !(specHasProp(sp, cr.prop)) {
+			continue
+		}
+		fn := cr.prog.FindFunc(sp.Name)
+		for _, item := range sp.Reads {
+			ok := fn != nil && fn.Blocks != nil && bodyReads(fn, item)
+			st := "sat"
+			if ok {
+				st = "unsat"
+			}
+			cr.obls = append(cr.obls, &Obligation{Name: sp.Name + "#reads:" + item, Kind: "reads", Func: sp.Name, Props: sp.Props,
+				Res: &SolveResult{Status: st, Solver: "scan"}})
+		}
+	}
+}
+
+// bodyReads: does fn's own body load parameter p ("p") or field f of the struct parameter p points to ("p.f")?
+func bodyReads(fn *ssa.Function, item string) bool {
+	pname, fname := item, ""
+	if i := strings.Index(item, "."); i >= 0 {
+		pname, fname = item[:i], item[i+1:]
+	}
+	var param *ssa.Parameter
+	for _, p := range fn.Params {
+		if p.Name() == pname {
+			param = p
+		}
+	}
+	if param == nil {
+		return false
+	}
+	for _, b := range fn.Blocks {
+		for _, in := range b.Instrs {
+			if fname == "" {
+				// a load of the parameter's cell (naive form), or a direct use
+				if u, ok := in.(*ssa.UnOp); ok && u.Op == token.MUL {
+					if al, ok := u.X.(*ssa.Alloc); ok && al.Comment == pname {
+						return true
+					}
+				}
+				continue
+			}
+			if fa, ok := in.(*ssa.FieldAddr); ok {
+				if pt, ok := fa.X.Type().Underlying().(*types.Pointer); ok && types.Identical(pt, param.Type().Underlying()) {
+					if st, ok := pt.Elem().Underlying().(*types.Struct); ok && st.Field(fa.Field).Name() == fname {
+						return true
+					}
+				}
+			}
+		}
+	}
+	return false
 }
 
 func (cr *checkRun) solveAll() {
@@ -498,6 +561,7 @@ func runCheck(prop, tier string, writeBaseline, verbose bool, t0 time.Time) int 
 		cr.timeoutMs = 60000
 	}
 	cr.generate()
+	cr.readsObligations()
 	tGen := time.Since(t0)
 	if kinds := sweepProps[prop]; kinds != nil {
 		var keep []*Obligation
@@ -891,7 +955,6 @@ func writeReplay(cr *checkRun, dir, prop string, g *oblGroup, reason string) (st
 	return path, repro
 }
 
-
 // crossCheck re-solves every discharged claimed obligation with a solver other than the one that
 // discharged it. Returns counts and the groups a second solver refutes.
 func (cr *checkRun) crossCheck(groups []*oblGroup, claimed map[string]bool) (agree, undecided int, disagree []*oblGroup) {
@@ -959,7 +1022,10 @@ func (cr *checkRun) crossCheck(groups []*oblGroup, claimed map[string]bool) (agr
 // the current tree). Scratch copies live under $TMPDIR and are removed.
 func selfTest(prop string, known []KnownFinding) []string {
 	var out []string
-	type item struct{ name, patch string; reverse bool }
+	type item struct {
+		name, patch string
+		reverse     bool
+	}
 	var items []item
 	ents, _ := os.ReadDir(filepath.Join(verifDir, "seeded"))
 	for _, e := range ents {
